@@ -1397,6 +1397,8 @@ impl<'a> Interp<'a> {
             self.probe("hostile_step");
         }
         let before = std::fs::read(&path).ok();
+        // silent bit rot: the damage leaves size and timestamps as they were
+        let keep_times = if st.get("keep_mtime").and_then(|v| v.as_bool()) == Some(true) { std::fs::metadata(&path).ok().map(|m| { use std::os::unix::fs::MetadataExt; (m.atime(), m.atime_nsec(), m.mtime(), m.mtime_nsec()) }) } else { None };
         let frac = |len: usize| -> usize { ((st["num"].as_u64().unwrap_or(0) as u128 * len as u128) / 1000) as usize };
         let mut noop = false;
         let res: std::io::Result<()> = (|| {
@@ -1534,6 +1536,15 @@ impl<'a> Interp<'a> {
         if res.is_err() {
             self.probe("env_step_failed");
             return;
+        }
+        if let Some((as_, an, ms, mn)) = keep_times {
+            if let Ok(c) = std::ffi::CString::new(path.display().to_string()) {
+                let ts = [libc::timespec { tv_sec: as_, tv_nsec: an }, libc::timespec { tv_sec: ms, tv_nsec: mn }];
+                unsafe {
+                    libc::utimensat(libc::AT_FDCWD, c.as_ptr(), ts.as_ptr(), 0);
+                }
+                self.probe("damage_kept_mtime");
+            }
         }
         let after = std::fs::read(&path).ok();
         let changed = before != after;
